@@ -6,9 +6,11 @@
    n-th next() of each one is the n-th entry of the contents and None forever once it is
    exhausted (spec_steps: every iterator keeps its own position; iterators only read the
    map, so they cannot influence each other).
-   OBLIGATIONS: C02_full_iteration C02_interleaved_partial_iteration C02_exhausted_stays_none C02_contents_strictly_ascending C02_nonvacuous *)
+   OBLIGATIONS: C02_full_iteration C02_interleaved_partial_iteration C02_exhausted_stays_none C02_contents_strictly_ascending C02_nonvacuous C02_item_iterator_fused C02_fast_iterator_fused C02_range_iterator_fused *)
 From BPT Require Import Common.Base Common.AMap Rust.Arena Rust.Tree Rust.Heap Rust.Readers Rust.Run
      Rust.InvDefs Rust.Repr Rust.Spec Rust.ReachDefs Rust.TreeFactsI Rust.ReadersIter Rust.Reach Props.Reachable.
+From BPT Require Extra.RustExtra2.
+From BPT Require Extra.RustExtra.
 
 Theorem C02_full_iteration :
   forall (V : Type) (c : nat) (ops : list (op V)), 4 <= c -> fits (ops_weight ops) ->
@@ -55,3 +57,16 @@ Proof.
 Qed.
 
 Definition C02_nonvacuous := ReachExamples.ex_agree.
+
+(* on EVERY heap: an ItemIterator (items/keys/values) that returned None keeps returning None and stays in the same state *)
+Theorem C02_item_iterator_fused : forall (V : Type) (h : heap V) s s',
+  item_next h s = Ok (s', None) -> item_next h s' = Ok (s', None).
+Proof. exact RustExtra.item_iterator_fused. Qed.
+
+Theorem C02_fast_iterator_fused : forall (V:Type) (h:heap V) s s',
+  fast_next h s = Ok (s', None) -> fast_next h s' = Ok (s', None).
+Proof. exact RustExtra2.fast_iterator_fused. Qed.
+
+Theorem C02_range_iterator_fused : forall (V:Type) (h:heap V) s s',
+  range_next h s = Ok (s', None) -> range_next h s' = Ok (s', None).
+Proof. exact RustExtra2.range_iterator_fused. Qed.
